@@ -214,7 +214,7 @@ impl Property for P {
     }
     fn rule(&self) -> String {
         "Generated: sessions over 4 KEMs x any KDF/AEAD in {Auth, AuthPsk} (identity impostors) and {Psk, AuthPsk} (PSK possession) with impostor kinds: a different key pair; public half only (OpModeS::Auth((skI, pkS)), a real call since the API takes the pair unchecked); sender in the non-authenticated sibling mode; psk differing in one bit / in length / entirely, same psk_id; forged transcripts computed by the reference model from public values and an ephemeral key only (identity DH term omitted / Ndh zero bytes / omitted together with pkS in kem_context / DH(skE, pkS) / the ephemeral DH repeated) against a receiver expecting the honest pkS, each of the 14 small-order X25519 encodings, or (NIST) its own public key. \
-         Swept: 4 KEMs x applicable modes x 6 impostor kinds; 5 forged-term kinds x expected keys x {Auth, AuthPsk} x 4 KEMs x {sealing, export-only}; every PSK length 1..=1200 (every 7th up to 2100) with the impostor's PSK differing in its last bit / one byte shorter / one byte longer. A third of the generated PSK impostors use a 301..=2100-byte PSK with the difference at its end. \
+         Swept: 4 KEMs x applicable modes x 6 impostor kinds; 5 forged-term kinds x expected keys x {Auth, AuthPsk} x 4 KEMs x {sealing, export-only}; every PSK length 1..=1200 (every 7th up to 2100, ten lengths just above 4 KiB..128 KiB) with the impostor's PSK differing in its last bit / one byte shorter / one byte longer. A third of the generated PSK impostors use a 301..=2100-byte PSK with the difference at its end. \
          Oracle: positive control (honest sender accepted, exports equal); for the impostor the receiver opens none of 3 ciphertexts and all 3 exports differ (or a setup fails). \
          Non-trivial: the public-half-only impostor, one-bit PSK differences and forged transcripts."
             .into()
@@ -301,7 +301,7 @@ impl Property for P {
         // every PSK length 1..=1200 (then every 7th up to 2100): the impostor's PSK differs in its last
         // bit, lacks the last byte, or has one more byte
         let mut psklen = Vec::new();
-        for l in (1..=1200usize).chain((1201..=2100).step_by(7)) {
+        for l in (1..=1200usize).chain((1201..=2100).step_by(7)).chain([4095usize, 4097, 5000, 8193, 10000, 16385, 32769, 65537, 70001, 131073]) {
             let s = Suite { kem: KemId::X25519, kdf: KdfId::ALL[l % 3], aead: if l % 5 == 0 { AeadId::Export } else { AeadId::ChaCha } };
             let mut sess = gen::cell_session(s, if l % 2 == 0 { 1 } else { 3 }, 81);
             sess.psk = Bytes(gen::fill(l, 5, 810 + l as u64));
